@@ -550,6 +550,47 @@ func init() {
 				}
 				add(c)
 			}
+			// refused documents between accepted ones: a one-expression document whose value the field's parser refuses
+			// (AddDocument returns early), then documents whose FIRST conjunction does not mention that field at all
+			for _, par := range []string{"number", ""} {
+				c := rCase{Fields: []rField{{F: 0, Cont: "default", Parser: par}, {F: 1, Cont: "default"}, {F: 2, Cont: "ac_matcher"}}}
+				bad := tvStr("18-30")
+				if par == "" {
+					bad = tvBool(true)
+				}
+				one := func(id int64, e eExpr) eDoc { return eDoc{ID: id, Cons: []eConj{{e}}} }
+				c.Docs = []eDoc{
+					one(1, eExpr{F: 1, Inc: true, V: tvStr("x")}),
+					one(2, eExpr{F: 0, Inc: true, V: bad}),
+					{ID: 3, Cons: []eConj{{{F: 1, Inc: true, V: tvStr("y")}}, {{F: 0, Inc: true, V: tvSlice("[]int", tvInt("int", 5))}}}},
+					one(4, eExpr{F: 0, Inc: false, V: bad}),
+					one(5, eExpr{F: 1, Inc: false, V: tvStr("x")}),
+					one(6, eExpr{F: 2, Inc: true, V: tvInt("int", 7)}),
+					{ID: 7, Cons: []eConj{{}, {{F: 2, Inc: true, V: tvStr("kw")}}}},
+				}
+				for i, q := range [][]eAssign{{{F: 1, V: tvStr("x")}}, {{F: 1, V: tvStr("y")}}, {{F: 0, V: tvInt("int", 5)}}, nil, {{F: 2, V: tvStr("a kw b")}, {F: 1, V: tvStr("z")}}, {{F: 0, V: tvInt("int", 9)}, {F: 1, V: tvStr("y")}}} {
+					c.Ops = append(c.Ops, rOp{S: 0, Op: "reset"}, rOp{S: 0, Op: []string{"retrieve", "docs"}[i%2], A: q}, rOp{S: 0, Op: "raw"})
+				}
+				add(c)
+			}
+			// a hinted scanner whose retrieval is REFUSED (a text the number parser cannot read) and that is then used again
+			// WITHOUT Reset, the value corrected or the field dropped: the hints still restrict
+			{
+				c := rCase{Fields: []rField{{F: 0, Cont: "default", Parser: "number"}, {F: 1, Cont: "default"}}}
+				for id := int64(1); id <= 6; id++ {
+					c.Docs = append(c.Docs, eDoc{ID: id, Cons: []eConj{{{F: 1, Inc: true, V: tvStr("x")}, {F: 0, Inc: true, V: tvSlice("[]int", tvInt("int", 30))}}, {{F: 1, Inc: true, V: tvStr("y")}}}})
+				}
+				good := []eAssign{{F: 0, V: tvInt("int", 30)}, {F: 1, V: tvStr("x")}}
+				for i, hs := range [][]int64{{2, 4, 7}, {1}, {6, 5, 4, 3}} {
+					s := i
+					c.Ops = append(c.Ops, rOp{S: s, Op: "hint", Hint: hs},
+						rOp{S: s, Op: "retrieve", A: []eAssign{{F: 0, V: tvStr("thirty")}, {F: 1, V: tvStr("x")}}},
+						rOp{S: s, Op: []string{"retrieve", "docs"}[i%2], A: good}, rOp{S: s, Op: "raw"},
+						rOp{S: s, Op: "docs", A: []eAssign{{F: 1, V: tvStr("y")}}}, rOp{S: s, Op: "raw"},
+						rOp{S: s, Op: "reset"}, rOp{S: s, Op: "hint", Hint: hs}, rOp{S: s, Op: "retrieve", A: good}, rOp{S: s, Op: "raw"})
+				}
+				add(c)
+			}
 			// one builder, two builds: a document of three conjunctions goes in before the first build, narrower documents
 			// after it; hinted retrievals on the LATER index must still reach the wide document through its last conjunction
 			for _, rebuild := range []int{1, 2} {
@@ -699,4 +740,25 @@ func rawKeptProbe() (calls int, viol []string) {
 		}
 	}
 	return
+}
+
+// refusedQueryRounds: on ONE roaring index, rounds of {good query, a query one field's container refuses, the good
+// queries again} on a scanner that is Reset in between and on scanners created for the purpose: what a refused
+// retrieval leaves behind (scratch lists, pooled bitmaps) must not show in any later answer.  Which field a retrieval
+// visits first is Go's map order, so the rounds are repeated.
+func refusedQueryRounds(c rCase, good [][]eAssign, bad []eAssign, rounds int) rCase {
+	for k := 0; k < rounds; k++ {
+		for i, q := range good {
+			c.Ops = append(c.Ops, rOp{S: 0, Op: "reset"}, rOp{S: 0, Op: []string{"retrieve", "docs"}[(i+k)%2], A: q}, rOp{S: 0, Op: "raw"})
+		}
+		c.Ops = append(c.Ops, rOp{S: 0, Op: "reset"}, rOp{S: 0, Op: "retrieve", A: bad})
+		for i, q := range good {
+			s := 0
+			if (i+k)%3 == 2 {
+				s = 1 + k // a new scanner takes its result list from the pool
+			}
+			c.Ops = append(c.Ops, rOp{S: s, Op: "reset"}, rOp{S: s, Op: []string{"docs", "retrieve"}[(i+k)%2], A: q}, rOp{S: s, Op: "raw"})
+		}
+	}
+	return c
 }
